@@ -182,10 +182,13 @@ func mergeSameAlias(selections []*graphql.Selection) ([]*graphql.Selection, erro
 				isLastSelectionSetCopied = true
 			}
 
-			seenSelections := make(map[string]struct{}, len(selection.SelectionSet.Selections))
+			// Two different selections with the same alias both have to be
+			// kept: their sub-selections are merged when the combined
+			// selection set is flattened in turn.
+			seenSelections := make(map[*graphql.Selection]struct{}, len(selection.SelectionSet.Selections))
 			for _, s := range selection.SelectionSet.Selections {
-				if _, ok := seenSelections[s.Alias]; !ok {
-					seenSelections[s.Alias] = struct{}{}
+				if _, ok := seenSelections[s]; !ok {
+					seenSelections[s] = struct{}{}
 					last.SelectionSet.Selections = append(last.SelectionSet.Selections, s)
 				}
 			}
